@@ -148,7 +148,8 @@ class _Canon:
 
     def _guard_clauses(self, tree):
         """`if c: ...jump  else: REST`  ->  `if c: ...jump` ; REST     (and `if c: A else: ...jump` -> `if not c: ...jump` ; A)"""
-        for n in ast.walk(tree):
+        # inner blocks first: whether a branch ends in a jump is only settled once the blocks inside it are in canonical form
+        for n in reversed(list(ast.walk(tree))):
             for field in ("body", "orelse", "finalbody"):
                 blk = getattr(n, field, None)
                 if isinstance(blk, list) and blk and isinstance(blk[0], ast.stmt):
